@@ -242,6 +242,8 @@ Definition C06_event_ok (c : ccfg) (k : cache) (ds : list (option json)) (e : ev
               | VUpdate =>
                   if negb (content_changed e) then None else   (* adoption / release edits *)
                   if is_deleting old then Some "write-to-child-pending-deletion" else
+                  (* ... nor does a retry land on a child that has begun terminating since the cache was taken *)
+                  if accepted e && is_deleting (e_pre e) then Some "write-to-child-pending-deletion" else
                   match des with
                   | None => Some "undesired-child-updated"
                   | Some d =>
@@ -336,6 +338,13 @@ Definition C10_round (c : ccfg) (k : cache) (parent : json) (evs : list ev) : op
           | None => None
           | Some _ =>
               if negb (is_write q) then None else
+              (* a parent pending deletion that has lost the finalizer in this very sync has no child touched any more *)
+              if existsb (fun e' => match is_api e' with
+                                    | Some q' => targets_parent c parent q' && verb_eqb (q_verb q') VUpdate && accepted e' &&
+                                                 has_finalizer (e_pre e') fin && negb (has_finalizer (e_post e') fin) &&
+                                                 is_deleting (e_pre e')
+                                    | None => false end) seen
+              then Some "child-touched-after-finalizer-removed-from-dying-parent" else
               match q_verb q with
               | VCreate =>
                   (* the finalizer is on the parent as cached, or as an earlier read or write of this sync returned it *)
